@@ -491,6 +491,15 @@ def slow_node(uid=None, a=None, b=None, c=None, *va, **vk):
   return _r.rec('slow_node', locals())
 
 
+def fresh_scaled(*scales):
+  """A factory whose bound arguments are all positional (variadic)."""
+  return _r.rec('fresh_scaled', locals())
+
+
+def fresh_pair(lo, hi=9, /):
+  return _r.rec('fresh_pair', locals())
+
+
 def fresh_list():
   return _r.rec('fresh_list', {})
 
